@@ -241,6 +241,8 @@ def compile_tu(tu, inc_hash):
     flags = base + [tu.get("opt", "-O1"), "-g0", f"-fsanitize={san},float-cast-overflow", "-fno-sanitize-recover=all",
                     "-fno-omit-frame-pointer",
                     f"-I{REPO}/include", f"-I{HARNESS}/common", f"-D{GUARD}"] + [f"-D{d}" for d in tu.get("defines", [])]
+    if tu.get("nosan"):   # opt-in: a unit built without the sanitizers (plain release-style code generation)
+        flags = [f for f in flags if "sanitize" not in f]
     if tu.get("syntax_only"):
         flags = flags + ["-fsyntax-only"]
     key = hashlib.sha256((inc_hash + "\0" + " ".join(flags) + "\0" + tu["src"]).encode()).hexdigest()[:32]
